@@ -44,7 +44,8 @@ def _gen_obj(rng, Ms, cls=None):
     shift = [0.0 for _ in Ms] if rng.random() < 0.5 else [dy(rng, -2, 2, 4) for _ in Ms]
     emu = [True, True, False, None][int(rng.integers(0, 4))]
     return {'cls': cls, 'N': Ns, 'q': q, 'fov': fov, 'shift': shift, 'emu': emu, 'delta': [dy_nz(rng, 0.125, 2.0, 3) for _ in Ms],
-            'zero': [dy(rng, -2, 2, 3) for _ in Ms], 'seed': int(rng.integers(0, 2 ** 31))}
+            'zero': [dy(rng, -2, 2, 3) for _ in Ms], 'seed': int(rng.integers(0, 2 ** 31)),
+            'pre': bool(rng.random() < 0.7), 'alloc': bool(rng.random() < 0.5)}       # MFT/NFT switches: state kept between calls
 
 
 def gen_multi(rng):
@@ -56,9 +57,17 @@ def gen_multi(rng):
     Ms = draw()
     nobj = int(rng.integers(2, 5))
     share = rng.random() < 0.75
+    # class mix: a population of one class (every class, so that two live MFTs / filters / ZoomFFTs meet), or a mixed one around an FFT
+    one_class = str(rng.choice(['fft', 'mft', 'nft', 'zoom', 'filter'])) if rng.random() < 0.4 else None
     objs = []
     for i in range(nobj):
-        o = _gen_obj(rng, Ms if (share or i == 0 or rng.random() < 0.5) else draw(), 'fft' if i == 0 else None)
+        o = _gen_obj(rng, Ms if (share or i == 0 or rng.random() < 0.5) else draw(), one_class if one_class else ('fft' if i == 0 else None))
+        if i > 0 and rng.random() < 0.35:
+            # the same array shapes as object 0 on another grid (other spacing, origin, shift, switches): N, q, fov copied
+            for k in ('N', 'q', 'fov'):
+                o[k] = list(objs[0][k])
+            if all(v == 0 for v in o['shift']) and rng.random() < 0.5:
+                o['shift'] = [dy(rng, -2, 2, 4) for _ in Ms]
         objs.append(o)
     if rng.random() < 0.3:
         # the same descriptor twice: two live objects that differ in nothing but identity (and the emulate flag)
@@ -126,9 +135,9 @@ class _Live:
         else:
             self.out_grid = hcipy.make_fft_grid(self.in_grid, q, fov, shift)
             if self.cls == 'mft':
-                self.ft = hcipy.MatrixFourierTransform(self.in_grid, self.out_grid, precompute_matrices=bool(d['seed'] % 2), allocate_intermediate=bool((d['seed'] // 2) % 2))
+                self.ft = hcipy.MatrixFourierTransform(self.in_grid, self.out_grid, precompute_matrices=bool(d.get('pre', d['seed'] % 2)), allocate_intermediate=bool(d.get('alloc', (d['seed'] // 2) % 2)))
             elif self.cls == 'nft':
-                self.ft = hcipy.NaiveFourierTransform(self.in_grid, self.out_grid, precompute_matrices=bool(d['seed'] % 2))
+                self.ft = hcipy.NaiveFourierTransform(self.in_grid, self.out_grid, precompute_matrices=bool(d.get('pre', d['seed'] % 2)))
             else:
                 self.ft = hcipy.ZoomFastFourierTransform(self.in_grid, self.out_grid)
         self.full = self.cls != 'filter' and self.out_grid.size == int(np.prod([int(np.round(qq * n)) for qq, n in zip(d['q'], d['N'])]))
@@ -199,6 +208,14 @@ def tie_multi(case):
                 'multi:internal-shape-' + ('shared' if shared else 'all-different')]
     if len(set((tuple(o.d['q']), o.internal_shape) for o in live if o.cls == 'fft')) > len(set(o.internal_shape for o in live if o.cls == 'fft')):
         t.counts.append('multi:same-shape-different-q')
+    for c in sorted(set(o.cls for o in live)):
+        same = [o for o in live if o.cls == c]
+        if len(same) > 1:
+            t.counts.append('multi:two-live-' + c)
+            if len(set((tuple(o.in_grid.shape), tuple(o.out_grid.shape)) for o in same)) < len(same) and len(set((tuple(o.d['delta']), tuple(o.d['zero']), tuple(o.d['shift'])) for o in same)) > 1:
+                t.counts.append('multi:two-live-%s-same-shapes-other-grid' % c)
+                if c in ('mft', 'nft') and sum(1 for o in same if o.d.get('pre')) > 1:
+                    t.counts.append('multi:two-live-%s-same-shapes-other-grid-both-precomputed' % c)
     if len(set(o.d['emu'] for o in live if o.cls == 'fft')) > 1:
         t.counts.append('multi:emulate-flags-mixed')
     last = [{} for _ in live]
@@ -339,7 +356,7 @@ def _model_pass(case, t):
         calls += [idx.index(call['obj']), 1 if back else 0, j]
     if not cores:
         return
-    t.lines = ['C01 multi %s %s 3/4' % (nat_list(cfg), nat_list(calls))]
+    t.lines = ['C01 multi %s %s 3/4' % (nat_list(cfg), nat_list(calls)), 'C01 multipool %s %s 3/4' % (nat_list(cfg), nat_list(calls))]
     t.counts.append('multi:model-populations')
 
     def check(rs):
@@ -355,5 +372,8 @@ def _model_pass(case, t):
             if not e <= 1e-9 * max(float(np.abs(mv).max()), 1e-300):
                 return 'FFT core of call %d of the population history %s (objects %s, arrays poisoned) differs from the per-object-array model runOwn by %.3g' % (
                     ci + 1, calls, cfg, e)
+        # the defect-class model (arrays pooled by padded size + skip-clearing flags) on the same history: does this history tell the two apart?
+        if len(rs) > 1 and rs[1].startswith('ok ') and rs[1] != r:
+            return 'ok-discriminates'
         return None
     t.check = check
